@@ -262,6 +262,7 @@ func init() {
 			code := c07WriteCount(fd)
 			if code < 0 {
 				fail("C07: OutQueue.Write: the fragment loop (`err = q.addChunk(data)`, `n += len(data)`, `if err != nil { return }`) is not in a recognised shape")
+				code = 99 // no accounting the model knows
 			}
 			fmt.Fprintf(b, "/-- OutQueue.Write, fragment loop: 0 = `n += len(data)` runs before the `if err != nil { return }` that follows\n    `addChunk` (a fragment is counted as soon as it is enqueued), 1 = it runs only after that return (a fragment whose\n    callback failed is enqueued but not counted) -/\ndef c07WriteCount : Nat := %d\n", code)
 		}
